@@ -24,7 +24,7 @@ type C15Case struct {
 
 var _ = Register("C15", func() interface{} { return new(C15Case) }, func(c interface{}) string { return c15Oracle(c.(*C15Case)) })
 
-var c15Decl = &GenCfg{Depth: 2, Fanout: 3, MaxOpts: 4, MaxGroups: 2, NestGroups: 1, Kinds: []Kind{KMapSS, KMapSI, KMapIS, KMapSS, KString, KInt, KStringSlice, KBool},
+var c15Decl = &GenCfg{Depth: 2, Fanout: 3, MaxOpts: 4, MaxGroups: 2, NestGroups: 1, Kinds: []Kind{KMapSS, KMapSI, KMapIS, KMapFS, KString, KInt, KStringSlice, KBool},
 	Ns: true, Req: 30, Choices: true, Defaults: true, Hidden: true, Desc: true, Bases: false, Aliases: true, SubOpt: 30, CmdPct: 80, Env: true,
 	ParserOpts: []flags.Options{flags.HelpFlag, flags.PassDoubleDash, flags.IgnoreUnknown}}
 
@@ -50,6 +50,9 @@ func genC15(t *rapid.T) *C15Case {
 						k := fmt.Sprintf("k%d", j)
 						if kk == KInt {
 							k = fmt.Sprint(j * 7)
+						}
+						if kk == KFloat64 {
+							k = fmt.Sprintf("%d.5", j*3)
 						}
 						v := fmt.Sprintf("v%d", j)
 						if vk == KInt {
